@@ -18,6 +18,7 @@ import (
 func init() {
 	mon.Register(&mon.Check{
 		ID:        "C08",
+		Boost:     10,
 		Batches:   func(tier string) int { return 16 },
 		Run:       runC08,
 		Technique: "model-based runtime monitor: generated (session, sequence number, handler behaviour) histories are played in lock-step against the real connection loop; every handler invocation (identity included) and every connection close is compared with an executable session/sequence model",
